@@ -977,11 +977,13 @@ class Knowledge:
             self.known = set()  # derived atoms known true
             self.bounds = {}  # term -> (lo, hi)
             self.ineqs = []  # linear terms L with L <= 0 known
+            self.implied = []  # (guard atom, fact atom): guard => fact
         else:
             self.atoms = list(other.atoms)
             self.known = set(other.known)
             self.bounds = dict(other.bounds)
             self.ineqs = list(other.ineqs)
+            self.implied = list(other.implied)
         self._isets = None
 
     def copy(self):
@@ -997,7 +999,25 @@ class Knowledge:
         if record and isinstance(atom, Sym):
             self.atoms.append(atom)
         self._derive(atom)
+        self._fire_implied()
         return True
+
+    def _fire_implied(self):
+        if not self.implied:
+            return
+        changed = True
+        while changed:
+            changed = False
+            rest = []
+            for g, fact in self.implied:
+                d = self.decide_fast(g)
+                if d is True:
+                    if fact not in self.known:
+                        self._derive(fact)
+                        changed = True
+                elif d is None:
+                    rest.append((g, fact))
+            self.implied = rest
 
     def _derive(self, atom):
         if not isinstance(atom, Sym):
@@ -1251,9 +1271,6 @@ class Knowledge:
         best_lo, best_hi = iv
         if isinstance(d, int) or not self.ineqs:
             return iv
-        if best_lo is not None and best_hi is not None:
-            return iv
-
         def tset(x):
             p = _lin_parts(x)
             return set(p[1]) if p else set()
@@ -1264,10 +1281,6 @@ class Knowledge:
         dts = tset(d)
         nd = neg(d)
         for sign, target in ((1, d), (-1, nd)):
-            if sign == 1 and best_hi is not None:
-                continue
-            if sign == -1 and best_lo is not None:
-                continue
             best = None
             for i, f in enumerate(self.ineqs):
                 if not (isets[i] & dts):
